@@ -145,6 +145,7 @@ type Engine struct {
 	forks        int
 	timerChans   []*ChanObj
 	timerResets  []*Term
+	uniqueTab    map[string]*Object // package unique's interning table (engine lifetime)
 	ghosts       []*ghost
 }
 
